@@ -837,10 +837,19 @@ class Gen:
                 i = self.do_types(toks[1:], i + 1, lines)
             elif d == "const":
                 s = src(toks[1])
-                mm = re.search(r"^[ \t]*(pub(\([a-z]+\))?\s+)?const\s+" + re.escape(toks[2]) + r"\b[^;]*;", s.m, re.M)
+                mm = re.search(r"^[ \t]*(pub(\([a-z]+\))?\s+)?const\s+" + re.escape(toks[2]) + r"\b", s.m, re.M)
                 if not mm:
                     raise AnchorLost("const %s not found in %s" % (toks[2], toks[1]))
-                txt = s.text[mm.start():mm.end()].strip()
+                # the item ends at the first `;` outside brackets (an array type `[T; N]` contains one)
+                k_ = mm.end()
+                d_ = 0
+                while k_ < len(s.m) and not (s.m[k_] == ";" and d_ == 0):
+                    if s.m[k_] in "([{":
+                        d_ += 1
+                    elif s.m[k_] in ")]}":
+                        d_ -= 1
+                    k_ += 1
+                txt = s.text[mm.start():k_ + 1].strip()
                 txt = re.sub(r"^pub(\([a-z]+\))?\s+", "", txt)
                 for a, b in self.substs:
                     if a in txt:
